@@ -30,7 +30,7 @@ def as_order(logical, order):
     if view.shape != logical.shape or not np.array_equal(view, logical):
         raise Machinery('storage view does not reproduce the logical table')
     # memory order really is the requested one: strides decrease along `perm`
-    st = [view.strides[a] for a in perm]
+    st = [view.strides[a] for a in perm if view.shape[a] > 1]
     if any(st[i] < st[i + 1] for i in range(len(st) - 1)):
         raise Machinery('storage view has strides %r for order %r' % (view.strides, order))
     return view
